@@ -60,6 +60,13 @@ func makeWorkspace(c *core.Ctx, name string, nproj int, salt int64) *workspace {
 		}
 		// the first project's weather has days whose minimum lies above the maximum temperature: the reader warns on
 		// the session's log channel and corrects them. A valid run that talks while the dispatcher waits for a slot.
+		// every third project's weather file carries the optional third header line (station altitude, wind height, CO2):
+		// what a run learns from it must not reach the runs that follow it in the session
+		if i%3 == 1 || i == 0 {
+			p.Weather.NumHeader = 3
+			p.Weather.Height, p.Weather.WindHeight, p.Weather.CO2 = float64(300+50*i), 10, 0
+			p.Cfg.Alt = 20 + 10*i
+		}
 		if i == 0 {
 			b := p.Rotation[0].Harv - p.Weather.First
 			for _, k := range []int{b + 3, b + 50, b + 120} {
@@ -120,7 +127,7 @@ func (ws *workspace) lineRef(solo map[string]string, pi, k, variant int) batchLi
 
 // lineVariants: the same project with one configuration key overridden on the batch line. Lines of one session that
 // share every input file but differ in a key must not see each other's settings (caches keyed by file only).
-const lineVariants = 3
+const lineVariants = 4
 
 func (ws *workspace) lineVar(pi int, k int, fail string, variant int) batchLine {
 	p := ws.Projects[pi]
@@ -174,6 +181,13 @@ func (ws *workspace) lineVar(pi int, k int, fail string, variant int) batchLine 
 		} else {
 			set("ETpot", "2")
 		}
+	case 3: // the other result style together with an extension of its own: two keys of one line that touch the same setting
+		if p.Cfg.ResultFormat == 1 {
+			set("ResultFileFormat", "0")
+		} else {
+			set("ResultFileFormat", "1")
+		}
+		set("ResultFileExt", "out")
 	}
 	res := fmt.Sprintf("RES_%s_L%d", p.Name, k)
 	set("resultfolder", res)
